@@ -84,3 +84,69 @@ def check(run, case, jobs, what, key, rounds=3):
               ((what, len(bad), len(per_round) * len(jobs)) + (bad[0] if bad else (0, 0, "", "", ""))),
               key=key)
     return not bad
+
+
+# ------------------------------------------------------------------ ready-made workloads
+def evaluation_jobs(rng, what, k=4):
+    """
+    k jobs, each evaluating its own synthetic sequence with evo's API the way a thread pool over a
+    data set does.  what: 'ape', 'rpe', 'umeyama', 'associate', 'filters'.
+    """
+    from vmon import gen
+    from evo.core import metrics, sync, geometry, filters
+    from evo.core.units import Unit
+
+    def make(seed):
+        r = np.random.default_rng(seed)
+        n = int(r.integers(20, 120))
+        a = gen.traj_arrays(r, n, stamp_cls="small")
+        for i in range(1, n):
+            if a["t"][i] <= a["t"][i - 1]:
+                a["t"][i] = a["t"][i - 1] + 1e-3
+        b = {"p": a["p"] + r.normal(size=(n, 3)) * 0.05, "R": a["R"], "t": a["t"] + 1e-4}
+        mode = "se3" if r.random() < .5 else "xyzq"
+
+        def job():
+            ref, est = gen.make_evo(a, mode), gen.make_evo(b, mode)
+            out = []
+            if what == "umeyama":
+                for ws in (False, True):
+                    rr, tt, cc = geometry.umeyama_alignment(b["p"].T, a["p"].T, ws)
+                    out += [rr, tt, cc]
+                est.align(ref, correct_scale=True)
+                out.append(est.positions_xyz)
+            elif what == "associate":
+                x, y = sync.associate_trajectories(ref, est, max_diff=0.01)
+                out += [x.timestamps, y.timestamps, y.positions_xyz, sync.matching_time_indices(a["t"], b["t"], 0.01)]
+            elif what == "filters":
+                poses = ref.poses_se3
+                out.append(filters.filter_by_motion(poses, 0.3, 0.2))
+                ref.downsample(max(2, n // 3))
+                out.append(ref.timestamps)
+                est.motion_filter(0.3, 10.0, True)
+                out.append(est.timestamps)
+            else:
+                rels = [metrics.PoseRelation.translation_part, metrics.PoseRelation.rotation_angle_rad,
+                        metrics.PoseRelation.full_transformation]
+                for rel in rels:
+                    m = metrics.APE(rel) if what == "ape" else metrics.RPE(rel, 1.0 + (seed % 3), Unit.frames, all_pairs=bool(seed % 2))
+                    m.process_data((ref, est))
+                    out.append(m.error)
+                    out.append(m.get_all_statistics())
+            return out
+        return job
+
+    return [make(int(rng.integers(2**31))) for _ in range(k)]
+
+
+def k_evaluation(what, label, key):
+    """kind factory: concurrent evaluations of `what` equal the serial ones"""
+    def kind(run, case):
+        from vmon import core
+        rng = run.rng(case)
+        jobs = evaluation_jobs(rng, what)
+        run.seen(case, core.digest("threads", what, case["rs"]), cls=["concurrent use: 4 threads (%s)" % what],
+                 sample={"workload": what})
+        with core.quiet():
+            check(run, case, jobs, label, key)
+    return kind
